@@ -159,3 +159,17 @@ func ZZ_C07_jwtclaims() {
 		zz.Cover("boundary", true)
 	}
 }
+
+// ZZ_C07_mapclaims_exp_zero records (without asserting) the inherited jwt-go convention that a
+// numeric exp / nbf / iat claim of exactly 0 is treated like an absent claim. A server-minted token never
+// carries exp = 0 (ToMapClaims drops a zero instant), so this is outside the property as stated; it is
+// kept as an observation for the report.
+func ZZ_C07_mapclaims_exp_zero() {
+	repr := zz.Choice("repr", 3)
+	m := MapClaims{"sub": "peter"}
+	zzC07Claim(m, "exp", repr, 0)
+	err := m.Valid()
+	zz.Note("MapClaims: exp == 0 (1970-01-01) is treated as 'no exp claim' by verifyExp (inherited jwt-go behaviour); not asserted")
+	zz.Observe("exp-zero.valid", err == nil)
+	zz.Cover("exp-zero:treated-as-unset", err == nil)
+}
